@@ -635,7 +635,12 @@ def endgame_positions(rng, size, per_class, back=(1, 1, 2, 3)):
     while tries < 400 and any(len(buckets.get(k, [])) < per_class for k in want):
         tries += 1
         r = rng.random()
-        if r < 0.55:
+        if r < 0.2:
+            # MORE than the standard set (roads still arrive after a handful of plies)
+            from .gen import STD_CAPS, STD_PIECES
+
+            cfg = tak.Config(size=size, pieces=STD_PIECES[size] + rng.choice([1, 2, 5, 20]), capstones=STD_CAPS[size] + rng.choice([0, 1, 2]))
+        elif r < 0.6:
             cfg = tak.Config(size=size, pieces=rng.randrange(1, size + 3), capstones=rng.choice([0, 0, 1]))
         elif r < 0.8:
             cfg = tak.Config(size=size, pieces=rng.randrange(size + 1, 2 * size + 4), capstones=rng.choice([0, 1]))
